@@ -115,3 +115,23 @@ Definition text_utf8_of (v : prim) : res (list N) :=
   | PChars 0 l => Ok l
   | _ => Err OtherErr
   end.
+
+(* BitString.__init__(list): a list of 0/1 (the empty list included — allInts is tested first) IS the value, whatever the
+   class's bitLen; a non-empty list of known bit names sets those bits in [0]*bitLen.  b = (bitLen, bitNames) of the class. *)
+Definition bits_ctor_ints (b : N * table) (l : list bool) : res prim := Ok (PBits l).
+Fixpoint bits_set_names (tb : table) (names : list string) (v : list bool) : res (list bool) :=
+  match names with
+  | [] => Ok v
+  | s :: r =>
+      match tbl_num tb s with
+      | None => Err TypeErr
+      | Some i => if lenN v <? i then Err IndexErr                       (* (bit < 0) or (bit > len(self.value)) *)
+                  else if lenN v =? i then Err IndexErr                  (* self.value[bit] = 1 on a list that short *)
+                  else bits_set_names tb r (set_nth v (N.to_nat i) true)
+      end
+  end.
+Definition bits_ctor_names (b : N * table) (names : list string) : res prim :=
+  match names with
+  | [] => Ok (PBits [])
+  | _ => do v <- bits_set_names (snd b) names (repeat false (N.to_nat (fst b))); Ok (PBits v)
+  end.
